@@ -381,6 +381,87 @@ theorem visitList_post (search : Loc) (repl0 : Node) (parent : Option String) (a
       · rw [e1]; exact .tail ho
 end
 
+/-! ## a static condition under which no default is ever written -/
+
+/-- replacement nodes that carry no value to transfer: an input *parameter*, or an annotated assignment without value
+    (in particular the `--input-eval` node `name: Literal[…]`) -/
+def quiet : Node → Bool
+  | .arg _ => true
+  | .stmt (.ann _ _ none) => true
+  | _ => false
+
+theorem prepare_quiet (fnLoc : Loc) (a : Args) (node : Node) (h : quiet node = true) :
+    (prepare fnLoc a node).touched = false := by
+  unfold prepare
+  split
+  · simp [quiet] at h
+  · simp [quiet] at h
+  · rfl
+
+def Quiet (st : RState) : Prop := st.phantom = false ∧ quiet st.repl = true
+
+theorem visitFn_quiet (search : Loc) (parent : Option String) (st : RState) (name : String) (a : Args) (h : Quiet st) :
+    Quiet (visitFn search parent st name a).2 := by
+  by_cases hc : (st.replaced || st.err.isSome || (parent.toList ++ [name] != search.dropLast)) = true
+  · rw [visitFn_skip hc]; exact h
+  · rw [visitFn_go hc]
+    cases hr : asArg st.repl with
+    | none => exact h
+    | some r =>
+      simp only []
+      exact ⟨by simp [h.1, prepare_quiet _ a st.repl h.2], rfl⟩
+
+theorem visitAsyncArgs_quiet (fnLoc search : Loc) (st : RState) (l : List Arg) (h : Quiet st) :
+    Quiet (visitAsyncArgs fnLoc search st l).2 := by
+  induction l with
+  | nil => unfold visitAsyncArgs; exact h
+  | cons x xs ih =>
+    unfold visitAsyncArgs
+    split
+    · split
+      · exact ⟨h.1, h.2⟩
+      · exact h
+    · exact ih
+
+theorem place_quiet (argOk : Bool) (st : RState) (h : Quiet st) : Quiet (place argOk st).2 := by
+  unfold place; exact h
+
+mutual
+theorem visit_quiet (search : Loc) (parent : Option String) (argOk : Bool) (st : RState) : (s : Stmt) → Quiet st →
+    Quiet (visit search parent argOk st s).2
+  | .fn false name a body ds ret, h => by rw [visit]; exact visitFn_quiet search parent st name a h
+  | .fn true name a body ds ret, h => by
+    rw [visit]
+    split
+    · exact place_quiet argOk st h
+    · exact visitList_quiet search (some name) _ _ body
+        (visitAsyncArgs_quiet _ search _ a.kwonly (visitAsyncArgs_quiet _ search st a.args h))
+  | .cls n bs ks body ds, h => by
+    rw [visit]
+    split
+    · exact place_quiet argOk st h
+    · exact visitList_quiet search (some n) _ st body h
+  | .ann t a v, h => by
+    rw [visit]
+    split
+    · exact place_quiet argOk st h
+    · exact h
+  | .assign ts v, h => by
+    rw [visit]
+    split
+    · exact place_quiet argOk st h
+    · exact h
+  | .strExpr s, h => by rw [visit]; exact h
+  | .expr s, h => by rw [visit]; exact h
+  | .other s, h => by rw [visit]; exact h
+theorem visitList_quiet (search : Loc) (parent : Option String) (argOk : Bool) (st : RState) : (ss : List Stmt) → Quiet st →
+    Quiet (visitList search parent argOk st ss).2
+  | [], h => by rw [visitList]; exact h
+  | s :: ss, h => by
+    rw [visitList]
+    exact visitList_quiet search parent false _ ss (visit_quiet search parent argOk st s h)
+end
+
 /-! ## parameter / default alignment -/
 
 theorem annotFrom_find (fnLoc : Loc) (t : String) : ∀ (l : List Arg) (i : Int),
